@@ -76,15 +76,22 @@ class PC(object):
             return r
         return self._check(z3.Not(b), *extra) == z3.unsat
 
-    def feasible(self, b=True, extra=()):
+    def feasible(self, b=True, extra=(), timeout_ms=None, mark=True):
         if b is False:
             return False
         args = list(extra)
         if b is not True:
             args.append(b)
-        r = self._check(*args)
+        if timeout_ms:
+            self.solver.set('timeout', timeout_ms)
+        try:
+            r = self._check(*args)
+        finally:
+            if timeout_ms:
+                self.solver.set('timeout', QUERY_TIMEOUT_MS)
         if r == z3.unknown:
-            self.maybe_infeasible = True
+            if mark:
+                self.maybe_infeasible = True
             return True
         return r == z3.sat
 
